@@ -1,1 +1,273 @@
--- property theorems of C14 (not built yet)
+/-
+  C14 — opacity / CIA / k-table files of every supported format load to the same physical table; the cache serves
+  one object per molecule, loaded once; interpolation-mode changes take effect.
+  Every theorem is about the definitions the driver `driver_c14` executes
+  (TaurexModel/Loaders.lean, Sanitize.lean, CacheSM.lean).  `K` is an arbitrary linearly ordered field (ℚ, ℝ, …).
+-/
+import Proofs.C14Cache
+import Proofs.C14Sanitize
+import Proofs.C14Loaders
+
+namespace Taurex.C14
+open Taurex.Loaders Taurex.Sanitize Taurex.CacheSM
+
+variable {K : Type} [Field K] [LinearOrder K] [IsStrictOrderedRing K]
+
+/-! ## formats: `dec (enc t) = t` -/
+
+/-- pickle cross-sections: pressures written in bar come back in Pa, everything else as stored -/
+theorem dec_enc_pickle (tab : XTab K) : decPickle (encPickle tab) = tab := by
+  cases tab
+  simp only [decPickle, encPickle, map_div_mul _ (show (100000 : K) ≠ 0 by norm_num)]
+
+/-- the 2×2×3 table used for the non-vacuity examples -/
+def exTab : XTab ℚ := ⟨[1, 2, 3], [100, 200], [10, 1000], [[[1, 2, 3], [4, 5, 6]], [[7, 8, 9], [10, 11, 0]]]⟩
+
+example : decPickle (encPickle exTab) = exTab ∧ (encPickle exTab).p = [1/10000, 1/100] := by decide +kernel
+
+/-- HDF5 cross-sections with any pressure unit the reader converts (`Pa bar mbar hPa kPa MPa Torr Ba`, and `atm`,
+    `mmHg` through the CDS parser): the declared unit is undone exactly -/
+theorem dec_enc_hdf (tab : XTab K) (units name : String) (c : K) (hu : unitFactor true units = some c) :
+    decHdf (encHdf units c name tab) = some tab := by
+  cases tab
+  simp [decHdf, encHdf, hu, map_div_mul _ (unitFactor_ne_zero hu)]
+
+example : unitFactor (α := ℚ) true "atm" = some 101325 ∧ unitFactor (α := ℚ) true "bar" = some 100000 ∧
+    decHdf (encHdf "atm" 101325 "H2O" exTab) = some exTab := by decide +kernel
+
+/-- the CIA pickle container stores the table as it is -/
+theorem dec_enc_pickleC {α : Type} (tab : CTab α) : decPickleC (encPickleC tab) = tab := rfl
+
+/-- pickle k-tables -/
+theorem dec_enc_pickleK (tab : KTab K) (name : String) : decPickleK (encPickleK name tab) = tab := by
+  cases tab
+  simp only [decPickleK, encPickleK, map_div_mul _ (show (100000 : K) ≠ 0 by norm_num)]
+
+/-- HDF5 k-tables -/
+theorem dec_enc_hdfK (tab : KTab K) (units : String) (c : K) (hu : unitFactor true units = some c) :
+    decHdfK (encHdfK units c tab) = some tab := by
+  cases tab
+  simp [decHdfK, encHdfK, hu, map_div_mul _ (unitFactor_ne_zero hu)]
+
+def exKTab : KTab ℚ := ⟨[1, 2], [100, 200], [10, 1000],
+  [[[[1, 2], [3, 4]], [[4, 5], [6, 7]]], [[[7, 8], [8, 9]], [[10, 11], [11, 12]]]], [1/4, 3/4]⟩
+
+example : decHdfK (encHdfK "atm" 101325 exKTab) = some exKTab ∧ decPickleK (encPickleK "H2O" exKTab) = exKTab := by
+  decide +kernel
+
+/-! ## Exo-Transmit -/
+
+/-- Exo-Transmit text (wavelengths in m ascending, rows `P(bar) xsec(T)…` in m²) decodes to the table it was written
+    from, every entry `v` coming back as `(v/10000 + tiny)·10000` (`tiny` = the reader's `1e-60`): wavenumbers
+    re-sorted ascending with the table permuted alike, pressures in Pa.  `hpos` guards the reader's division by the
+    wavelength (Mathlib's `x/0 = 0` would not need it). -/
+theorem dec_enc_exo (tiny : K) (tab : XTab K) (hwf : tab.WF) (ht : tab.t ≠ [])
+    (hwn : tab.wn.Pairwise (· < ·)) (_hpos : ∀ w ∈ tab.wn, 0 < w) :
+    decExo tiny (encExo tab) =
+      { wn := tab.wn, t := tab.t, p := tab.p,
+        x := tab.x.map fun row => row.map fun col => col.map (exoShift tiny) } :=
+  decExo_encExo tiny tab hwf ht hwn
+
+/-- without the `1e-60` the round trip is exact -/
+theorem dec_enc_exo_exact (tab : XTab K) (hwf : tab.WF) (ht : tab.t ≠ [])
+    (hwn : tab.wn.Pairwise (· < ·)) (hpos : ∀ w ∈ tab.wn, 0 < w) : decExo 0 (encExo tab) = tab := by
+  rw [dec_enc_exo 0 tab hwf ht hwn hpos]
+  have hid : exoShift (0 : K) = id := by
+    funext v
+    simp only [exoShift, add_zero, id]
+    exact div_mul_cancel₀ v (by norm_num)
+  cases tab
+  simp [hid]
+
+/-- non-vacuity: the 2×2×3 example table satisfies the hypotheses (so it round-trips), and its file begins with
+    the block of the largest wavenumber -/
+example : exTab.WF ∧ exTab.t ≠ [] ∧ exTab.wn.Pairwise (· < ·) ∧ (∀ w ∈ exTab.wn, 0 < w) ∧
+    decExo 0 (encExo exTab) = exTab ∧
+    (encExo exTab).body.take 4 = [[1/300], [1/10000, 3/10000, 6/10000], [1/100, 9/10000, 0], [1/200]] := by
+  have h1 : exTab.WF := ⟨by decide +kernel, by decide +kernel⟩
+  have h2 : exTab.t ≠ [] := by decide +kernel
+  have h3 : exTab.wn.Pairwise (· < ·) := by decide +kernel
+  have h4 : ∀ w ∈ exTab.wn, 0 < w := by decide +kernel
+  exact ⟨h1, h2, h3, h4, dec_enc_exo_exact exTab h1 h2 h3 h4, by decide +kernel⟩
+
+omit [IsStrictOrderedRing K] in
+/-- whatever the order of the wavelength blocks in the file, the loaded wavenumber grid is ascending and is a
+    permutation of the file's wavenumbers (`10000·1e-6/λ`) -/
+theorem exo_sorted (tiny : K) (f : ExoFile K) :
+    (decExo tiny f).wn.Pairwise (· ≤ ·) ∧
+    (decExo tiny f).wn.Perm ((exoGroup f.body).map (fun b => exoWn b.1)) :=
+  ⟨gather_argsort_sorted _, gather_argsort_perm _⟩
+
+/-- all cross-section containers written from one table decode to that table -/
+theorem formats_agree (tab : XTab K) (units name : String) (c : K) (hu : unitFactor true units = some c)
+    (hwf : tab.WF) (ht : tab.t ≠ []) (hwn : tab.wn.Pairwise (· < ·)) (hpos : ∀ w ∈ tab.wn, 0 < w) :
+    decHdf (encHdf units c name tab) = some (decPickle (encPickle tab)) ∧
+    decExo 0 (encExo tab) = decPickle (encPickle tab) ∧ decPickle (encPickle tab) = tab := by
+  rw [dec_enc_pickle, dec_enc_hdf tab units name c hu, dec_enc_exo_exact tab hwf ht hwn hpos]
+  exact ⟨rfl, rfl, rfl⟩
+
+/-- all k-table containers written from one table decode to that table -/
+theorem formats_agree_k (tab : KTab K) (units name : String) (c : K) (hu : unitFactor true units = some c) :
+    decHdfK (encHdfK units c tab) = some (decPickleK (encPickleK name tab)) ∧ decPickleK (encPickleK name tab) = tab := by
+  rw [dec_enc_pickleK, dec_enc_hdfK tab units c hu]
+  exact ⟨rfl, rfl⟩
+
+omit [IsStrictOrderedRing K] in
+/-- axes oriented as in the file: temperatures as stored, pressures ×1e5, table shaped [P][T][wn] -/
+theorem exo_axes (tiny : K) (f : ExoFile K) :
+    (decExo tiny f).t = f.trow ∧ (decExo tiny f).p = f.prow.map (fun v => v * 100000) ∧
+    (decExo tiny f).x.length = f.prow.length ∧
+    (∀ row ∈ (decExo tiny f).x, row.length = f.trow.length ∧
+      ∀ col ∈ row, col.length = (decExo tiny f).wn.length) := by
+  refine ⟨rfl, rfl, by simp [decExo], ?_⟩
+  intro row hrow
+  simp only [decExo, List.mem_map, List.mem_range] at hrow
+  obtain ⟨i, _, rfl⟩ := hrow
+  refine ⟨by simp, ?_⟩
+  intro col hcol
+  simp only [List.mem_map, List.mem_range] at hcol
+  obtain ⟨j, _, rfl⟩ := hcol
+  simp [decExo, gather]
+
+/-! ## HITRAN -/
+
+omit [IsStrictOrderedRing K] in
+/-- negative HITRAN entries are clipped: every value the reader stores is ≥ 0.
+    (Not proved: non-negativity of the values `fill_temperature` interpolates between two stored rows for files with
+    several ranges; the harness evaluates that predicate on every loaded table.) -/
+theorem hitran_clip_nonneg (s : K) : 0 ≤ clipSigma s := by
+  unfold clipSigma
+  simp only
+  split_ifs with h
+  · exact le_refl 0
+  · exact not_lt.mp h
+
+example : clipSigma (-3 : ℚ) = 0 ∧ clipSigma (20000000000 : ℚ) = 2 := by decide +kernel
+
+/-- the 3-temperature, 2-wavenumber CIA table used for the non-vacuity examples -/
+def exCTab : CTab ℚ := ⟨[20, 40], [200, 300, 500], [[1, 2], [3, 0], [5, 6]]⟩
+
+/-- a HITRAN `.cia` file with ONE wavenumber range (one block per temperature, values ×1e10, strictly increasing
+    temperatures, ascending wavenumbers, no negative entry) loads to the table it was written from — the same table
+    the pickle `.db` form gives.  Covers the whole reader: block loop, temperature list, `fill_gaps`,
+    `compute_final_grid`. -/
+theorem hitran_single_range (pair : String) (tab : CTab K) (hwf : tab.WF) (ht : tab.t ≠ [])
+    (hts : tab.t.Pairwise (· < ·)) (hwn : tab.wn.Pairwise (· ≤ ·)) :
+    decHitran (encHitran pair tab) = decPickleC (encPickleC tab) ∧ decHitran (encHitran pair tab) = tab :=
+  ⟨decHitran_encHitran pair tab hwf ht hts hwn, decHitran_encHitran pair tab hwf ht hts hwn⟩
+
+example : exCTab.WF ∧ exCTab.t ≠ [] ∧ exCTab.t.Pairwise (· < ·) ∧ exCTab.wn.Pairwise (· ≤ ·) ∧
+    decHitran (encHitran "H2-He" exCTab) = exCTab ∧
+    ((encHitran "H2-He" exCTab).map (fun b => (b.wn0, b.wn1, b.temp, b.pts))).head? =
+      some (20, 40, 200, [(20, 10000000000), (40, 20000000000)]) := by
+  have h1 : exCTab.WF := ⟨by decide +kernel, by decide +kernel⟩
+  have h2 : exCTab.t ≠ [] := by decide +kernel
+  have h3 : exCTab.t.Pairwise (· < ·) := by decide +kernel
+  have h4 : exCTab.wn.Pairwise (· ≤ ·) := by decide +kernel
+  exact ⟨h1, h2, h3, h4, (hitran_single_range "H2-He" exCTab h1 h2 h3 h4).2, by decide +kernel⟩
+
+/-! ## molecule names -/
+
+/-- sanitising is idempotent -/
+theorem sanitize_idem (s : List Char) : sanitize (sanitize s) = sanitize s := go_idem St.out s
+
+/-- a sanitised name consists of letters and digits only -/
+theorem sanitize_alnum (s : List Char) : ∀ c ∈ sanitize s, isAlnum c = true := go_alnum St.out s
+
+/-- the documented examples -/
+theorem sanitize_examples :
+    sanitizeStr "1H2-16O" = "H2O" ∧ sanitizeStr "H2O" = "H2O" ∧ sanitizeStr "12C-16O2" = "CO2" ∧
+    sanitizeStr "48Ti-16O" = "TiO" ∧ sanitizeStr "h2o" = "" ∧
+    String.ofList (discName .pickleXsec "1H2-16O.R100.TauREx.pickle".toList) = "H2O" ∧
+    String.ofList (discName .exo "opac1H2-16O.dat".toList) = "H2O" ∧
+    String.ofList (objName .exo "opac1H2-16O.dat".toList []) = "H2O" ∧
+    String.ofList (discName .hdfK "1H2-16O__POKAZATEL__R1000.ktable.TauREx.h5".toList) = "H2O" ∧
+    String.ofList (discName .cia "H2-He_2011.cia".toList) = "H2-He" := by
+  decide +kernel
+
+/-- `clean_molecule_name` (`split('_')[0]`) never changes a sanitised name -/
+theorem clean_noop (s : List Char) : firstPart '_' (sanitize s) = sanitize s := by
+  unfold firstPart
+  apply takeWhile_all
+  intro c hc
+  exact alnum_ne (sanitize_alnum s c hc) '_' (by decide)
+
+/-- every format names the object it builds by the name its discovery advertises -/
+theorem names_consistent (f : NameFmt) (fname : List Char) (hf : f ≠ .pickleK) :
+    objName f fname [] = discName f fname := by
+  cases f with
+  | pickleXsec => exact clean_noop _
+  | exo => rfl
+  | hdfK => exact clean_noop _
+  | pickleK => exact absurd rfl hf
+  | cia => rfl
+
+/-! ## the cache -/
+
+/-- between two cache clears a molecule is served by one and the same object, and serving it again does not
+    touch the state (no further load) -/
+theorem served_same (fs : List Dir) (s : CSt) (m : String) (o : Obj) (ops : List COp)
+    (hops : ∀ op ∈ ops, op.clears = false) (h : (step fs s (.get m)).2 = .served o) :
+    step fs (run fs (step fs s (.get m)).1 ops) (.get m) = (run fs (step fs s (.get m)).1 ops, .served o) :=
+  step_get_hit (run_ext fs ops _ hops m o (step_get_served h))
+
+/-- between two cache clears a molecule is constructed at most once (files that name their object as advertised) -/
+theorem loaded_once (fs : List Dir) (hc : consistent fs) (s : CSt) (m : String) (ops : List COp)
+    (hops : ∀ op ∈ ops, op.clears = false) :
+    loadsOf (run fs s ops) m ≤ loadsOf s m + 1 := by
+  have h := run_pot fs hc ops s hops m
+  unfold pot at h
+  split_ifs at h <;> omega
+
+/-- after `set_interpolation k` every object loaded from a file and served later has mode `k`
+    (until the mode is changed again) -/
+theorem interp_effective (fs : List Dir) (s : CSt) (k : Nat) (ops : List COp) (m : String) (o : Obj)
+    (hops : ∀ op ∈ ops, ∀ k', op ≠ .setInterp k')
+    (h : (step fs (run fs (step fs s (.setInterp k)).1 ops) (.get m)).2 = .served o) (hsrc : o.src ≠ none) :
+    o.mode = k := by
+  have hinv0 : ModeInv (step fs s (.setInterp k)).1 := fun e he => by simp [step] at he
+  have hinv := step_modeInv fs _ (.get m) (run_modeInv fs ops _ hinv0)
+  obtain ⟨e, he, rfl⟩ := lookup_mem (step_get_served h)
+  rw [hinv e he hsrc]
+  unfold interpOr
+  rw [step_get_interp, run_interp fs ops _ hops]
+  rfl
+
+/-- a molecule that is neither cached nor discoverable under the configured path raises, leaving the cache as it was -/
+theorem get_missing_error (fs : List Dir) (s : CSt) (m : String) (hd : lookup s.dict m = none)
+    (hf : ∀ e ∈ curFiles fs s, e.disc ≠ m) : step fs s (.get m) = (s, .missing) := by
+  have : loadFrom fs m s = s := foldl_loadStep_none m _ s hf
+  rw [step_get]
+  simp only [hd, this]
+
+/-- non-vacuity: a 7-operation history over a directory with an HDF5 and a pickle file of H2O and an Exo-Transmit
+    file of CH4: the HDF5 file wins, one load per clear segment, the mode follows `setInterp` -/
+example :
+    let fs : List Dir := [{ isDir := true, files :=
+      [⟨.hdf, 0, "H2O", "H2O"⟩, ⟨.pickle, 1, "H2O", "H2O"⟩, ⟨.exo, 2, "CH4", "CH4"⟩] }]
+    let ops : List COp := [.get "H2O", .setPath 0, .get "H2O", .get "H2O", .setInterp 1, .get "H2O", .get "XX"]
+    trace fs init ops =
+      [.missing, .done,
+       .served ⟨0, "H2O", 0, some true, some 0⟩, .served ⟨0, "H2O", 0, some true, some 0⟩, .done,
+       .served ⟨1, "H2O", 1, some true, some 0⟩, .missing] ∧
+    (run fs init ops).log = [("H2O", 0), ("H2O", 0)] ∧ consistent fs := by
+  refine ⟨by decide +kernel, by decide +kernel, ?_⟩
+  intro d hd e he
+  simp only [List.mem_singleton] at hd
+  subst hd
+  simp only [List.mem_cons, List.mem_nil_iff, or_false] at he
+  rcases he with rfl | rfl | rfl <;> rfl
+
+/-- the memory-mode setting never reaches the HDF5 reader (`xsec_in_memory or True`): recorded, not required -/
+theorem mem_mode_ignored (s : CSt) (e : FileEntry) : (loadObj s e).inMem ≠ some false := by
+  rcases loadObj_inMem s e with h | h <;> rw [h] <;> simp
+
+/-- a file whose object does not carry the advertised name is rebuilt on every request and never served
+    (the pre-fix Exo-Transmit behaviour; kept as the witness of why `consistent` is needed in `loaded_once`) -/
+theorem inconsistent_entry_reloads :
+    let fs : List Dir := [{ isDir := true, files := [⟨.exo, 0, "H2O", "1H2-16O"⟩] }]
+    let ops : List COp := [.setPath 0, .get "H2O", .get "H2O", .get "H2O"]
+    trace fs init ops = [.done, .missing, .missing, .missing] ∧ loadsOf (run fs init ops) "H2O" = 3 := by
+  decide +kernel
+
+end Taurex.C14
